@@ -22,7 +22,13 @@ RULE = ('rule-level: every exported rule whose tree is an integer binary operato
         'end-to-end: seeded generated IR functions (1-4 integer parameters, arithmetic, casts, constants, diamonds, loops, stack '
         'memory; no calls) x 6 boundary-biased argument vectors, final linked bytes executed by the Python RV32 twin, result in '
         'x10 compared with tools/irsem_py (UB cases skipped)')
-EXPLANATION = ('UPDATE (deepening round): now ALSO proved - loads LDR{I,U}{8,16,32} and stores STR{I,U}{8,16,32} with reg, reg+const '
+EXPLANATION = ('WAVE 3: additionally proved - conditional jumps on 8/16-bit values that first sign/zero-extend both operands '
+               '(c05_rv_cjmp_ext_rule_sound, on c05_rv_ext_correct), truncating casts (no code), widening casts by extension according to the '
+               'source signedness, NEG, INV and REG rows (c05_rv_unary_rule_sound). Not proved (classified in evidence not_covered): '
+               'LABEL / address-forming rows (lui+addi, auipc pairs: need the relocation theorems of C11), FPREL rows, MOVB, all float rows '
+               '(soft-float calls), CJMPF*, mem-producing rows, the multi-instruction SHRU8/16, SHRI8/16, DIVU16, REMU16 rows. '
+               'PREVIOUS TEXT: '
+               'UPDATE (deepening round): now ALSO proved - loads LDR{I,U}{8,16,32} and stores STR{I,U}{8,16,32} with reg, reg+const '
                'and (base, offset) mem addresses against IRSem.read_bytes/write_bytes/le_decode/le_encode through the relation mem_rel '
                '(c05_rv_load_rule_sound, c05_rv_store_rule_sound); MOVx (c05_rv_mov_rule_sound); CJMP{I,U}32 for all six relations: '
                'branch taken iff IRSem.eval_cond (c05_rv_cjmp_rule_sound), the 24 sub-word CJMP rows are refuted with Coq-verified '
@@ -85,16 +91,16 @@ def regen(ctx):
 
 def coq_check_flags(ctx, n):
     """check_rule / in_scope of every table row, evaluated by Coq"""
-    out = ctx.eval_terms('flags', ['Model.RvRules', 'Gen.Tab_rv_patterns', 'Proofs.C05_rules', 'Proofs.C05_mem'],
+    out = ctx.eval_terms('flags', ['Model.RvRules', 'Gen.Tab_rv_patterns', 'Proofs.C05_rules', 'Proofs.C05_mem', 'Proofs.C05_ext'],
                          ['map (fun r => ((check_rule r, match tree_sem (r_tree r) with Some _ => true | None => false end), '
-                          '(check_rule2 r, in_scope2 r))) rv_rules'])
+                          '((check_rule2 r || check_cjmp_ext r)%bool, in_scope2 r), (check_unary r, in_scope3 r))) rv_rules'])
     toks = re.findall(r'VBool (true|false)', out)
-    if len(toks) != 4 * n:
+    if len(toks) != 6 * n:
         toks = re.findall(r'\b(true|false)\b', out)
-    if len(toks) != 4 * n:
+    if len(toks) != 6 * n:
         ctx.failed_stages.append(('flags', 'cannot read check_rule flags from coqc (%d tokens for %d rules)' % (len(toks), n)))
         return None
-    return [tuple(toks[4 * i + k] == 'true' for k in range(4)) for i in range(n)]
+    return [tuple(toks[6 * i + k] == 'true' for k in range(6)) for i in range(n)]
 
 
 def write_bad(ctx, rows, flags, wit, cjwit=None):
@@ -116,7 +122,7 @@ def write_bad(ctx, rows, flags, wit, cjwit=None):
             'Definition rv_rules_undecided : list nat := [%s]%%nat.\n' % (';\n  '.join(bad), '; '.join(map(str, undecided))))
     cjbad, und2 = [], []
     for r in rows:
-        ck2, scope2 = flags[r['idx']][2:]
+        ck2, scope2 = flags[r['idx']][2:4]
         if scope2 and not ck2:
             w = cjwit.get(r['idx']) if cjwit else None
             if w is None:
@@ -337,7 +343,7 @@ def report_cj(ctx, rows, flags, cjwit):
 def report_rules(ctx, rows, flags, wit):
     for idx, w in sorted(wit.items()):
         r = rows[idx]
-        ck = flags[idx][0] if flags else False
+        ck = (flags[idx][0] or flags[idx][4]) if flags else False
         if ck:
             # a rule Coq proves sound but the Python twin refutes: the twin or the model is wrong - fail closed
             ctx.failed_stages.append(('oracle', 'rule %s is proved sound but the Python twin finds %s' % (r['text'], w['what'])))
@@ -439,7 +445,7 @@ def run(ctx):
         'conditions': sorted({str(r['cond'][0]) for r in rows})}
     flags = None
     wit = {}
-    ok, _ = ctx.build(['Gen/Tab_rv_patterns.vo', 'Proofs/C05_rules.vo', 'Proofs/C05_mem.vo'])
+    ok, _ = ctx.build(['Gen/Tab_rv_patterns.vo', 'Proofs/C05_rules.vo', 'Proofs/C05_mem.vo', 'Proofs/C05_ext.vo'])
     if ok:
         flags = coq_check_flags(ctx, len(rows))
     wit = rule_search(ctx, R, rows, flags)
@@ -450,12 +456,16 @@ def run(ctx):
             'proved_sound': [rows[i]['text'] for i in range(len(rows)) if flags[i][2]],
             'refuted': [rows[i]['text'] for i in range(len(rows)) if flags[i][3] and not flags[i][2] and i in cjwit],
             'undecided': [rows[i]['text'] for i in und2]}
+        ctx.cov['stages']['rules_unary'] = {
+            'proved_sound': [rows[i]['text'] for i in range(len(rows)) if flags[i][4]],
+            'in_scope_not_proved': [rows[i]['text'] for i in range(len(rows)) if flags[i][5] and not flags[i][4]]}
+        ctx.cov['stages']['rule_rows_proved_total'] = '%d of %d' % (sum(1 for fl in flags if fl[0] or fl[2] or fl[4]), len(rows))
         ctx.cov['stages']['rules'] = {
             'proved_sound': [rows[i]['text'] for i in range(len(rows)) if flags[i][0]],
             'in_scope_refuted': [rows[i]['text'] for i in range(len(rows)) if flags[i][1] and not flags[i][0] and i in wit],
             'in_scope_undecided': [rows[i]['text'] for i in und],
             'tested_only_unsound': [rows[i]['text'] for i in sorted(wit) if not flags[i][1]],
-            'not_covered': sorted({rows[i]['text'] for i in range(len(rows)) if not flags[i][1] and not flags[i][3] and R.row_sem(rows[i]) is None})}
+            'not_covered': sorted({rows[i]['text'] for i in range(len(rows)) if not flags[i][1] and not flags[i][3] and not flags[i][5] and R.row_sem(rows[i]) is None})}
         ok2, _ = ctx.build(['Proofs/C05_table.vo', 'Proofs/C05_frame.vo'])
         if ok2:
             ctx.check_props('Props/C05.v')
@@ -486,7 +496,7 @@ def search(ctx):
 
 
 MANIFEST = {
-    'text': 'UPDATE: 111 of 232 exported rule rows are now proved sound (68 ALU/constant rows + 43 load/store/move/32-bit '
+    'text': 'WAVE 3: 156 of 232 exported rule rows proved on the current source (180 of 232 once the sub-word compare repair is applied): ALU/constant rows, loads/stores/moves, 32-bit and (extended) 8/16-bit conditional jumps, jump, casts, neg/inv, REG rows; not proved: float/soft-float rows, LABEL and other address-forming rows, FPREL, MOVB, mem-producing rows and six multi-instruction sub-word rows. EARLIER: UPDATE: 111 of 232 exported rule rows are now proved sound (68 ALU/constant rows + 43 load/store/move/32-bit '
             'conditional-jump/jump rows), 24 sub-word conditional-jump rows are refuted with verified witnesses, and the frame code '
             '(prologue/epilogue balanced, argument locations, caller/callee stack-slot agreement) is proved on an abstract frame machine '
             'whose model is compared with the real RiscvArch methods on generated signatures and frames (c05_rv_callconv; abstract: word '
